@@ -2,7 +2,7 @@
    ExtrOcamlBasic only: Z, positive, nat stay the extracted inductive types. *)
 Require Extraction.
 Require Import ExtrOcamlBasic.
-From CCTZ Require Import Base SrcConstants Cal CivilImpl FixedImpl PosixImpl PosixSpec ZoneLoad ZoneImpl ZoneSpec WholeDomain ZoneZ ZoneHist ZoneRefineDefs SplitJoin LoaderSM NameRes FormatImpl ParseImpl FmtSpec.
+From CCTZ Require Import Base SrcConstants Cal CivilImpl FixedImpl PosixImpl PosixSpec ZoneLoad ZoneImpl ZoneSpec WholeDomain ZoneZ ZoneHist ZoneRefineDefs SplitJoin SubSecondDefs LoaderSM NameRes FormatImpl ParseImpl FmtSpec LastWriter.
 Extraction Language OCaml.
 Extraction "model.ml"
   Z.add Z.mul Z.sub Z.opp Z.div_eucl Z.compare Z.of_nat Z.to_nat
@@ -17,7 +17,8 @@ Extraction "model.ml"
   fixed_abbr_spec min64 max64 big_bang parse_ast szone_of wf_ast spec_lookup spec_civil spec_convert all_changes spec_transition spec_next spec_prev
   c01_domain whole_domain
   zone_ok abs_zone table_sorted zmake zbreak zconvert wfz
+  next_transition_sub prev_transition_sub
   split_seconds split_spec to_femto join_subsecond join_coarse join_seconds_rep rep_min rep_max
   exec ls_results ls_log ls_impls overlapping entries_for
   NameRes.load_time_zone local_zone_name zone_path
-  format_impl parse_impl render_spec clean_fmt lossless_fmt spec_tm lex format64 format_offset fmt_parse_offset parse_int64 parse_int32.
+  format_impl parse_impl render_spec clean_fmt lossless_fmt last_writer_ok_x no_other_x has_percent_s_x spec_tm lex format64 format_offset fmt_parse_offset parse_int64 parse_int32.
